@@ -67,6 +67,8 @@ func cmdDNSPool(args []string) error {
 	host("1.2.3.4 "+h+"  "+sub+" # both", "v4", h, sub)
 	host("10.0.0.1 "+sub+" # replaces ||"+sub+"^$important and */ads/*", "v4", sub)
 	host(h, "v4", h)
+	// a name written with capitals is that name, letter for letter: the same spelling finds it, another one does not
+	host("0.0.0.0 Upper."+h, "v4", "Upper."+h)
 	host("0.0.0.0 "+coll, "v4", coll)
 	host("::2 "+coll+" "+other, "v6", coll, other)
 	net(func(r *aRule) {})
@@ -154,7 +156,7 @@ func cmdDNSPool(args []string) error {
 		}
 	}
 	hs := map[string]bool{}
-	for _, name := range []string{h, coll, sub, other, "x" + h, "cafe.be", "1.2.3.4", "a_b." + h, "zone0." + h, name253} {
+	for _, name := range []string{h, coll, sub, other, "x" + h, "cafe.be", "1.2.3.4", "a_b." + h, "zone0." + h, name253, "Upper." + h, "upper." + h} {
 		if !hs[name] {
 			hs[name] = true
 			pool.Hashes = append(pool.Hashes, niHash{W: bytesToInts(name), H: fmt.Sprint(filterutil.FastHash(name))})
